@@ -82,3 +82,50 @@ Definition x_update_adjacent (x : sx) : sx :=
 Definition x_close (x : sx) : sx :=
   let t := to_tcomp (nthx 0 x) in
   of_bool (mat_close (to_Qc (nthx 2 x)) (tw t) (xmat t) (to_mat (nthx 1 x))).
+
+(* Sequences of transformations over named circuit variables, all in one process (function id 1108).
+   Semantics = values: every transformation returns or leaves a value that depends only on its operand;
+   copy / decompose_perms / simplify produce a new circuit and leave the operand as it was, inverse changes only
+   its target.  (simplify's output structure is an oracle: the model keeps the operand's tree, which has the
+   same matrix; its inverse therefore has the right matrix as well.)
+   statements: (0 v tree) v = tree | (1 dst src) dst = src.copy() | (2 v fv fh) v.inverse(v=fv, h=fh)
+             | (3 dst src merge) dst = decompose_perms(src, merge) | (4 dst src) dst = simplify(src)
+   answer per statement: ((var m matrix)..) for every defined variable *)
+Inductive tstmt :=
+| TNew (v : nat) (t : ttree) | TCopy (dst src : nat) | TInv (v : nat) (fv fh : bool)
+| TDec (dst src : nat) (merge : bool) | TSimp (dst src : nat).
+Definition to_tstmt (x : sx) : tstmt :=
+  let a i := to_nat (nthx i x) in
+  match to_Z (nthx 0 x) with
+  | 0%Z => TNew (a 1%nat) (to_tcomp (nthx 2 x))
+  | 1%Z => TCopy (a 1%nat) (a 2%nat)
+  | 2%Z => TInv (a 1%nat) (to_bool (nthx 2 x)) (to_bool (nthx 3 x))
+  | 3%Z => TDec (a 1%nat) (a 2%nat) (to_bool (nthx 3 x))
+  | _ => TSimp (a 1%nat) (a 2%nat)
+  end.
+Definition tenv := list (option ttree).
+Definition tget (e : tenv) (v : nat) : option ttree := nth v e None.
+Fixpoint tset (e : tenv) (v : nat) (c : ttree) : tenv :=
+  match v, e with
+  | O, [] => [Some c]
+  | O, _ :: r => Some c :: r
+  | S v', [] => None :: tset [] v' c
+  | S v', x :: r => x :: tset r v' c
+  end.
+Definition tstep (e : tenv) (s : tstmt) : tenv :=
+  match s with
+  | TNew v t => tset e v t
+  | TCopy dst src => match tget e src with Some t => tset e dst t | None => e end
+  | TInv v fv fh => match tget e v with Some t => tset e v (circuit_inverse_now fv fh t) | None => e end
+  | TDec dst src merge => match tget e src with Some t => tset e dst (tdecompose merge t) | None => e end
+  | TSimp dst src => match tget e src with Some t => tset e dst t | None => e end
+  end.
+Fixpoint treport (v : nat) (e : tenv) : list sx :=
+  match e with
+  | [] => []
+  | None :: r => treport (S v) r
+  | Some t :: r => L [of_nat_sx v; of_nat_sx (tw t); of_mat (tw t) (xmat t)] :: treport (S v) r
+  end.
+Fixpoint trun (e : tenv) (p : list tstmt) : list sx :=
+  match p with [] => [] | s :: r => let e' := tstep e s in L (treport 0 e') :: trun e' r end.
+Definition x_seq (x : sx) : sx := L (trun [] (map to_tstmt (to_list x))).
